@@ -138,6 +138,10 @@ Definition id_class (sigil : N) (id : bytes) : fclass :=
   else if negb (match id with c :: _ => c =? sigil | [] => false end) then FErr
   else len_class id.
 
+(* checkIDFormat: the colon and the sigil, without the lengths *)
+Definition id_format (sigil : N) (id : bytes) : bool :=
+  existsb (fun c => c =? 58) id && match id with c :: _ => c =? sigil | [] => false end.
+
 Definition id_ok (sigil : N) (id : bytes) : bool :=
   match id_class sigil id with FOk => true | _ => false end.
 
@@ -216,6 +220,9 @@ Definition check_fields_class (ver : bytes) (p : parser) (j : json) : fclass :=
   else if 255 <? rune_count sk then FTooLarge
   (* the sender's code-point limit is not lenient: checked before the byte sizes (repair of F43) *)
   else if 255 <? rune_count sender then FTooLarge
+  (* nor is the sender's format: a malformed sender is refused before any lenient byte size is
+     looked at (repair of F100) *)
+  else if negb (bytes_eqb ver pseudo_id_version) && negb (id_format 64 sender) then FErr
   else if 255 <? blen ty then FPersist
   else if 255 <? blen sk then FPersist
   (* pseudo IDs have no sigil or domain, but the length limits apply to them too *)
